@@ -5,14 +5,25 @@ use std::time::Duration;
 #[derive(Debug)]
 pub struct AtomicDuration(AtomicUsize);
 
+// convert to whole milliseconds, rounding up so that a timeout never fires early.
+// 0 is reserved for "no timeout", so a zero or sub-millisecond duration becomes 1ms
+#[inline]
+fn to_millis(dur: Option<Duration>) -> usize {
+    match dur {
+        None => 0,
+        Some(d) => {
+            let mut ms = d.as_millis() as usize;
+            if d.subsec_nanos() % 1_000_000 != 0 {
+                ms = ms.saturating_add(1);
+            }
+            ms.max(1)
+        }
+    }
+}
+
 impl AtomicDuration {
     pub fn new(dur: Option<Duration>) -> Self {
-        let dur = match dur {
-            None => 0,
-            Some(d) => d.as_millis() as usize,
-        };
-
-        AtomicDuration(AtomicUsize::new(dur))
+        AtomicDuration(AtomicUsize::new(to_millis(dur)))
     }
 
     #[inline]
@@ -26,12 +37,7 @@ impl AtomicDuration {
 
     #[inline]
     pub fn store(&self, dur: Option<Duration>) {
-        let timeout = match dur {
-            None => 0,
-            Some(d) => d.as_millis() as usize,
-        };
-
-        self.0.store(timeout, Ordering::Relaxed);
+        self.0.store(to_millis(dur), Ordering::Relaxed);
     }
 
     #[inline]
